@@ -142,3 +142,87 @@ func VH_C02_HeaderRoundTrip() {
 	}
 	vh.Assert(bytes.Equal(back.Payload, payload) && back.SignatureHeaderValue == e.SignatureHeaderValue, "payload and Signature header preserved")
 }
+
+// c02AsciiLower lower-cases the ASCII letters of s and nothing else (independent helper).
+func c02AsciiLower(s string) string {
+	b := []byte(s)
+	for i := range b {
+		if 'A' <= b[i] && b[i] <= 'Z' {
+			b[i] += 'a' - 'A'
+		}
+	}
+	return string(b)
+}
+
+// VH_C02_NonASCIIHeaderName: the library agrees to write header names that are not ASCII tokens; whatever it agrees
+// to write must read back.  Response (and for 1b1/1b2 request) header named "X-" + a two-byte UTF-8 letter in upper
+// or lower case (É/é, Ω/ω, Ж/ж, or a SYMBOLIC two-byte sequence c3 80..bf: the Latin-1 letters incl. × and ÷) + a
+// letter of symbolic case, all three versions: Write succeeds => ReadExchange accepts the file and returns exactly
+// one header whose name is the given name case-folded (upper-case non-ASCII letters folded too), with its value.
+// Seed C02-4 (ASCII-only folding in the writer while the reader's check is Unicode-aware) was missed: all names
+// were ASCII letters.
+func VH_C02_NonASCIIHeaderName() {
+	vh.MustReach("written")
+	ver := sxVersions[vh.Choose(3)]
+	var mid, midLower string
+	switch vh.Choose(7) {
+	case 0:
+		mid, midLower = "\xc3\x89", "\xc3\xa9" // É
+	case 1:
+		mid, midLower = "\xc3\xa9", "\xc3\xa9" // é
+	case 2:
+		mid, midLower = "\xce\xa9", "\xcf\x89" // Ω -> ω
+	case 3:
+		mid, midLower = "\xd0\x96", "\xd0\xb6" // Ж -> ж
+	case 4:
+		mid, midLower = "\xd0\xb6", "\xd0\xb6"
+	default:
+		// any Latin-1 supplement letter block character U+00C0..U+00FF: upper case U+00C0..U+00DE except U+00D7
+		c := vh.Byte("c")
+		vh.Assume(c >= 0x80 && c <= 0xbf)
+		mid = string([]byte{0xc3, c})
+		lc := c
+		if c <= 0x9e && c != 0x97 {
+			lc = c + 0x20
+		}
+		midLower = string([]byte{0xc3, lc})
+	}
+	last := []byte("t")
+	last[0] ^= vh.Byte("case") & 0x20
+	name := "X-" + mid + string(last)
+	wantLower := "x-" + midLower + "t"
+	v := vh.String("v", 1)
+	respH := http.Header{name: []string{v}, "Content-Type": []string{"text/html"}}
+	reqH := http.Header{}
+	if ver != version.Version1b3 && vh.Choose(2) == 1 {
+		reqH[name] = []string{v}
+	}
+	e := NewExchange(ver, sxURL, "GET", reqH, 200, respH, vh.Bytes("payload", 1))
+	e.SignatureHeaderValue = "label;sig=*AA==*"
+	var w vh.Sink
+	if e.Write(&w) != nil {
+		return // refusing such a name would be fine; agreeing to write it and not reading it back is not
+	}
+	vh.Reach("written")
+	back, rerr := ReadExchange(bytes.NewReader(w.B))
+	vh.Assert(rerr == nil, "what Write agreed to write, ReadExchange reads back (non-ASCII header name)")
+	if rerr != nil {
+		return
+	}
+	n := 0
+	for k, vs := range back.ResponseHeaders {
+		if c02AsciiLower(k) == wantLower && len(vs) == 1 && vs[0] == v {
+			n++
+		}
+	}
+	vh.Assert(n == 1 && len(back.ResponseHeaders) == 2, "the header comes back once, name case-folded, value intact")
+	if len(reqH) == 1 {
+		m := 0
+		for k, vs := range back.RequestHeaders {
+			if c02AsciiLower(k) == wantLower && len(vs) == 1 && vs[0] == v {
+				m++
+			}
+		}
+		vh.Assert(m == 1 && len(back.RequestHeaders) == 1, "the request header comes back once, name case-folded")
+	}
+}
